@@ -252,7 +252,7 @@ pub fn hostile_messages(x: &[u8]) -> Vec<Vec<u8>> {
 
 pub fn run(ctx: &Ctx) {
     let l = ctx.tier.pick(3usize, 4usize);
-    ctx.set_rule("reference messages in which each name position (question, owner, every RDATA name) and each character-string / TXT / opaque position of every type carries each byte string of length <= L over {00,2e,5c,61,80,c3,ff} and the maximal lengths (63-byte label, 255-byte string), plus every accepted member of the C01 input sweeps; on the parsed packet every public observer runs under catch_unwind: Debug and Display of Packet/Question/ResourceRecord/RData/Name/Label/CharacterString/TXT, to_string, clone, into_owned, Hash, ==, TXT::attributes, long_attributes, String::try_from (TXT, CharacterString), match_qtype, match_qclass, is_link_local, is_subdomain_of, without, label iteration, SVCB params. non-trivial = the parser accepted the message so the observers ran");
+    ctx.set_rule("reference messages in which each name position (question, owner, every RDATA name) and each character-string / TXT / opaque position of every type carries each byte string of length <= L over {00,2e,5c,61,80,c3,ff} and the maximal lengths (63-byte label, 255-byte string) and ~200 labels putting a multi-byte character at every byte offset, plus every accepted member of the C01 input sweeps; on the parsed packet every public observer runs under catch_unwind: Debug and Display of Packet/Question/ResourceRecord/RData/Name/Label/CharacterString/TXT, to_string, clone, into_owned, Hash, ==, TXT::attributes, long_attributes, String::try_from (TXT, CharacterString), match_qtype, match_qclass, is_link_local, is_subdomain_of, without, label iteration, SVCB params. non-trivial = the parser accepted the message so the observers ran");
     ctx.assume("fallible conversions may return Err or a lossy rendering; only panics are violations");
     let mut xs: Vec<Vec<u8>> = Vec::new();
     let mut b = Vec::new();
@@ -264,6 +264,7 @@ pub fn run(ctx: &Ctx) {
         m.push(0xc3);
         xs.push(m);
     }
+    xs.extend(gen::alignment_labels());
     let total = std::sync::atomic::AtomicU64::new(0);
     let chunks: Vec<&[Vec<u8>]> = xs.chunks(8).collect();
     par_shards(ctx, &chunks, |xs, t: &mut Tally| {
